@@ -359,7 +359,13 @@ fn random_plan(p: &mut Prng, baseline: &Observed, files: &[String], artifacts: &
                     2 => StoreFault::Remove { path },
                     3 => StoreFault::DirInsteadOfFile { path },
                     4 => {
-                        let text = match p.below(5) {
+                        let text = match p.below(if is_art { 8 } else { 5 }) {
+                            // artifacts only (the property excepts unboundedly nested *programs*):
+                            // nesting far beyond any reader's limit, nesting just below it, and
+                            // deep nesting inside an otherwise plausible object
+                            5 => "[".repeat(200_000),
+                            6 => format!("{}1{}", "[".repeat(6_000), "]".repeat(6_000)),
+                            7 => format!("{{\"package\": \"Main\", \"core_ir\": {}{}}}", "{\"a\":".repeat(3_000), "1".to_string() + &"}".repeat(3_000)),
                             0 => String::new(),
                             1 => "package".to_string(),
                             2 => "package Main\nimport Builtin\nfn main() -> unit { () }\n".to_string(),
